@@ -12,6 +12,7 @@ import SkVerif.Lemmas.ProbaAvg
 import SkVerif.Lemmas.ProbaVotes
 import SkVerif.Lemmas.ProbaFeat
 import SkVerif.Lemmas.ProbaIntervals
+import SkVerif.Lemmas.ProbaAlign
 import Mathlib.Data.List.Basic
 namespace SkVerif.C17
 open SkVerif.C17 SkVerif.C17.Spec
@@ -93,8 +94,9 @@ theorem forest_ragged_members_rejected (K : Nat) (m : Mat) (ms : List Mat)
 
 example : forestProba 2 [[[1, 0]], [[1]]] = .error .value := by decide +kernel
 
-/-- KNOWN FINDING (STSF), negation at a concrete witness: trees fitted on bags that all miss a class
-return one column; numpy broadcasts it against `np.ones(n_classes)` and the row sums to 2. -/
+/-- ORIGINAL CODE (before fix 47093f5; kept as a statement about plain `forestProba`, which STSF no longer
+calls on unaligned trees): trees fitted on bags that all miss a class return one column; numpy broadcasts it
+against `np.ones(n_classes)` and the row sums to 2. -/
 theorem forest_narrow_members_not_distribution :
     forestProba 2 [[[1]], [[1]], [[1]]] = .ok [[1, 1]] ∧ ¬ IsDist [1, 1] := by
   refine ⟨by decide +kernel, ?_⟩
@@ -102,14 +104,43 @@ theorem forest_narrow_members_not_distribution :
   have := h.2
   norm_num at this
 
+/-- `SupervisedTimeSeriesForest.predict_proba` (fix 47093f5): every tree is fitted on a bootstrap bag and
+may have seen only some of the classes (`mc` = its own `classes_`, duplicate-free, ⊆ `classes_`); its columns
+are put where the ensemble's `classes_` expect them.  If each tree returns a distribution over ITS classes,
+the forest returns a distribution over ALL classes — for every number of trees, instances, classes and every
+choice of the classes each bag missed. -/
+theorem stsf_aligned_avg_is_distribution (classes : List Label) (n : Nat) (members : List (List Label × Mat))
+    (hne : members ≠ [])
+    (h : ∀ m ∈ members, m.1.Nodup ∧ (∀ x ∈ m.1, x ∈ classes) ∧ m.2.length = n ∧
+      ∀ r ∈ m.2, r.length = m.1.length ∧ IsDist r) :
+    ∃ P, stsfProba classes members = .ok P ∧ P.length = n ∧ ∀ r ∈ P, r.length = classes.length ∧ IsDist r := by
+  obtain ⟨ms, hms, hlen, hP⟩ := Lem.mapM_ok_of_forall (fun m : List Label × Mat => stsfAlign classes m.1 m.2)
+    (fun M => M.length = n ∧ ∀ r ∈ M, r.length = classes.length ∧ IsDist r) members (by
+      intro m hm
+      obtain ⟨hnd, hsub, hn, hrows⟩ := h m hm
+      obtain ⟨M, hM, hl, hr⟩ := Lem.mapM_ok_of_forall (alignRow classes m.1) (Lem.RowOK classes.length 1) m.2 (by
+        intro r hr
+        exact Lem.alignRow_ok classes m.1 r hnd hsub (hrows r hr).1 (hrows r hr).2)
+      exact ⟨M, hM, by rw [hl, hn], fun r hr' => ⟨(hr r hr').1, Lem.isDist_of_rowOK (hr r hr')⟩⟩)
+  cases ms with
+  | nil =>
+    have : members.length = 0 := by simpa using hlen.symm
+    exact absurd (List.length_eq_zero_iff.mp this) hne
+  | cons M0 ms =>
+    obtain ⟨P, hPok, hres⟩ := avg_of_distributions_is_distribution classes.length n M0 ms hP
+    exact ⟨P, by simp only [stsfProba, hms]; exact hPok, hres⟩
+
+/-- a tree that saw classes 0 and 2 only, a full tree, and a tree that saw class 1 only -/
+example : stsfProba [.int 0, .int 1, .int 2]
+    [([.int 0, .int 2], [[1/4, 3/4]]), ([.int 0, .int 1, .int 2], [[0, 1, 0]]), ([.int 1], [[1]])] =
+    .ok [[1/12, 2/3, 1/4]] := by decide +kernel
+
 /-! ## dictionary ensembles: normalised votes -/
 
-/-- FULL STATEMENT (does not hold, see the two theorems below): for every fitted BOSS / cBOSS / TDE
-ensemble, `predict_proba` rows are distributions.
-PROVED PART: vote counting normalised by the total weight is a distribution whenever the total
-weight of the retained members is positive (members' predictions are training labels, weights ≥ 0):
-for every number of members, classes, instances and all weights. -/
-theorem votes_normalised_is_distribution_partial (classes : List Label) (n : Nat) (members : List (List Label × Rat))
+/-- vote counting normalised by the total weight is a distribution whenever the total weight is positive
+(members' predictions are training labels, weights ≥ 0): for every number of members, classes, instances
+and all weights. -/
+theorem weighted_votes_is_distribution (classes : List Label) (n : Nat) (members : List (List Label × Rat))
     (hmem : ∀ m ∈ members, n ≤ m.1.length ∧ (∀ l ∈ m.1, l ∈ classes) ∧ 0 ≤ m.2)
     (hpos : 0 < (members.map (·.2)).sum) :
     ∃ P : Mat, cbossProba classes n members = .ok (P.map (fun r => r.map some)) ∧ P.length = n ∧
@@ -137,8 +168,9 @@ theorem votes_normalised_is_distribution_partial (classes : List Label) (n : Nat
     rw [Lem.votesPure_weights, zero_add] at hok
     exact Lem.scaleRow_dist hpos hok
 
-/-- BOSSEnsemble is the case of unit weights: a distribution as soon as one member was retained -/
-theorem boss_votes_is_distribution_partial (classes : List Label) (n : Nat) (preds : List (List Label))
+/-- BOSSEnsemble is the case of unit weights: a distribution as soon as one member was retained (`fit`
+retains one whenever its window check passes: see `window_check_iff_search_nonempty`) -/
+theorem boss_votes_is_distribution (classes : List Label) (n : Nat) (preds : List (List Label))
     (hmem : ∀ p ∈ preds, n ≤ p.length ∧ ∀ l ∈ p, l ∈ classes) (hne : preds ≠ []) :
     ∃ P : Mat, bossProba classes n preds = .ok (P.map (fun r => r.map some)) ∧ P.length = n ∧
       ∀ r ∈ P, r.length = classes.length ∧ IsDist r := by
@@ -149,7 +181,7 @@ theorem boss_votes_is_distribution_partial (classes : List Label) (n : Nat) (pre
     | cons p ps ih => simp only [List.map_cons, List.sum_cons, ih, List.length_cons]; push_cast; ring
   have hpos : 0 < ((preds.map (fun p => (p, (1 : Rat)))).map (·.2)).sum := by
     rw [hsum]; exact_mod_cast List.length_pos_iff.mpr hne
-  have := votes_normalised_is_distribution_partial classes n (preds.map (fun p => (p, (1 : Rat))))
+  have := weighted_votes_is_distribution classes n (preds.map (fun p => (p, (1 : Rat))))
     (by
       intro m hm
       simp only [List.mem_map] at hm
@@ -163,8 +195,57 @@ example : bossProba [.str "a", .str "b"] 2 [[.str "a", .str "b"], [.str "a", .st
     .ok [[some (2/3), some (1/3)], [some (2/3), some (1/3)]] := by decide +kernel
 example : cbossProba [.int 3, .int 8] 1 [([.int 8], 1/4), ([.int 3], 3/4)] = .ok [[some (3/4), some (1/4)]] := by decide +kernel
 
-/-- KNOWN FINDING (BOSSEnsemble, series_length = min_window − 1): an ensemble that retained no member
-returns NaN in every entry, for every class set and number of instances. -/
+/-- cBOSS / TDE (fix 94648e4): a member's weight `accuracy⁴`, floored at 1e-9, is strictly positive for
+every accuracy (0, k/n, and the −1 of an abandoned estimate alike) -/
+theorem member_weight_pos (acc : Rat) : 0 < memberWeight acc := Lem.memberWeight_pos acc
+
+/-- FULL STRENGTH: for every fitted cBOSS / TDE ensemble (at least one member, whatever the members'
+train accuracies), `predict_proba` rows are distributions over `classes_`. -/
+theorem votes_normalised_is_distribution (classes : List Label) (n : Nat) (members : List (List Label × Rat))
+    (hne : members ≠ []) (hmem : ∀ m ∈ members, n ≤ m.1.length ∧ ∀ l ∈ m.1, l ∈ classes) :
+    ∃ P : Mat, cbossProba classes n (cbossFitted members) = .ok (P.map (fun r => r.map some)) ∧ P.length = n ∧
+      ∀ r ∈ P, r.length = classes.length ∧ IsDist r := by
+  apply weighted_votes_is_distribution
+  · intro m hm
+    simp only [cbossFitted, List.mem_map] at hm
+    obtain ⟨m0, hm0, rfl⟩ := hm
+    exact ⟨(hmem m0 hm0).1, (hmem m0 hm0).2, le_of_lt (Lem.memberWeight_pos _)⟩
+  · apply Lem.sum_pos_of_pos
+    · simpa [cbossFitted] using hne
+    · intro x hx
+      simp only [cbossFitted, List.map_map, List.mem_map, Function.comp] at hx
+      obtain ⟨m0, _, rfl⟩ := hx
+      exact Lem.memberWeight_pos _
+
+/-- every member with train accuracy 0 (the former NaN case) and one abandoned estimate (−1) -/
+example : cbossProba [.int 0, .int 1] 1 (cbossFitted [([.int 1], 0), ([.int 0], 0)]) = .ok [[some (1/2), some (1/2)]] := by
+  decide +kernel
+example : memberWeight (-1) = 1 ∧ memberWeight 0 = 1 / 1000000000 ∧ memberWeight (1/2) = 1/16 := by decide +kernel
+
+/-- BOSS / cBOSS / TDE `fit` (fix 94648e4) raises exactly when no window size can be searched, so a fitted
+ensemble has searched at least one window size (and retains a member) -/
+theorem window_check_iff_search_nonempty (minW maxW inc : Nat) (hinc : 1 ≤ inc) :
+    (windowCheck minW maxW = .ok () ↔ windowSizes minW maxW inc ≠ []) ∧
+    (windowCheck minW maxW = .error .value ↔ maxW < minW) := by
+  constructor
+  · unfold windowCheck windowSizes
+    by_cases h : minW > maxW
+    · have : maxW + 1 - minW = 0 := by omega
+      simp [h, this]
+    · simp only [h, if_false, true_iff, ne_eq, List.map_eq_nil_iff]
+      intro e
+      have h0 : 0 ∈ (List.range (maxW + 1 - minW)).filter (fun k => k % inc == 0) := by
+        simp only [List.mem_filter, List.mem_range, Nat.zero_mod, beq_self_eq_true, and_true]; omega
+      rw [e] at h0; simp at h0
+  · unfold windowCheck
+    by_cases h : minW > maxW <;> simp [h] <;> omega
+
+example : windowCheck 10 9 = .error .value ∧ windowCheck 10 10 = .ok () ∧ windowSizes 10 14 2 = [10, 12, 14] := by
+  decide +kernel
+
+/-- ORIGINAL CODE (before fix 94648e4, when `fit` accepted series_length = min_window − 1; kept as a
+statement about `predict_proba` alone): an ensemble without members returns NaN in every entry, for every
+class set and number of instances.  `fit` can no longer produce such an ensemble. -/
 theorem votes_empty_ensemble_not_distribution (classes : List Label) (n : Nat) :
     bossProba classes n [] = .ok ((List.range n).map (fun _ => List.replicate classes.length none)) := by
   unfold bossProba ensembleProba
@@ -177,8 +258,9 @@ theorem votes_empty_ensemble_not_distribution (classes : List Label) (n : Nat) :
 
 example : bossProba [.int 0, .int 1] 2 [] = .ok [[none, none], [none, none]] := by decide +kernel
 
-/-- KNOWN FINDING (cBOSS / TDE, every retained member has train accuracy 0): a zero total weight gives
-NaN in every entry, whatever the members predict. -/
+/-- ORIGINAL CODE (before fix 94648e4, when a member's weight could be 0; kept as a statement about
+`predict_proba` alone): a zero total weight gives NaN in every entry, whatever the members predict.
+`fit` can no longer produce such weights (`member_weight_pos`). -/
 theorem votes_zero_weight_not_distribution (classes : List Label) (n : Nat) (members : List (List Label × Rat))
     (hmem : ∀ m ∈ members, n ≤ m.1.length ∧ (∀ l ∈ m.1, l ∈ classes))
     (hzero : (members.map (·.2)).sum = 0) :
